@@ -1,4 +1,4 @@
 From Coq Require Import Extraction ExtrOcamlBasic.
 From Shisui Require Import Base.Bytes Model.History.
 Extraction Language OCaml.
-Extraction "c02_model.ml" validate_content validate_contents run_ops oracle_get_header key_number repaired as_found store_get.
+Extraction "c02_model.ml" validate_content validate_contents run_ops oracle_get_header key_number repaired as_found store_get validate_contents_loop_g getter_g header_of.
